@@ -77,6 +77,7 @@ def fresh_world(cal_state=None, ab_state=None, kind="tree", cfg="git", root_stor
     for d in ("/srv", "/srv/other", ROOT, ROOT + "/user", ROOT + "/user/calendars", ROOT + "/user/contacts"):
         w.dirs.add(d)
     w.files["/srv/other/secret"] = b"s"
+    w.dirs.add("/srv/root-old")  # a sibling whose name starts with the root's basename
     if root_store:
         # deployment in which the data root is itself a (non-bare) git collection
         mstore.install_state("tree", ROOT, {"r.ics": b"xr"})
